@@ -42,12 +42,15 @@ pub fn is_map_failed(p: Ptr) -> (b: bool) ensures b == map_failed(p) { unimpleme
 /// libc::munmap(addr, len).  The precondition is C12's "unmapped exactly": the call must give back
 /// exactly one whole mapping made by libc_mmap -- from its first byte, over its whole length (a shorter
 /// length leaks the tail, a shifted address leaks the head and unmaps somebody else's pages).
+/// The pointer is passed by `&mut` (R2, this unit) so that the EFFECT is visible: afterwards the mapping
+/// is gone.  An owner's Drop must establish that - a path on which munmap is not reached leaks.
 #[verifier::external_body]
-pub fn libc_munmap(p: Ptr, len: usize)
+pub fn libc_munmap(p: &mut Ptr, len: usize) -> (r: i32)
     requires
-        p.lo@ == p.a, // [C12]
-        p.hi@ == p.a + len, // [C12]
-        p.live@, // [C12]
+        old(p).lo@ == old(p).a, // [C12]
+        old(p).hi@ == old(p).a + len, // [C12]
+        old(p).live@, // [C12]
+    ensures !final(p).live@, final(p).a == old(p).a, final(p).lo == old(p).lo, final(p).hi == old(p).hi,
 { unimplemented!() }
 #[verifier::external_body]
 pub fn last_os_error() -> (r: i32) { unimplemented!() }
@@ -78,9 +81,10 @@ impl MmapUnix {
 }
 impl MmapUnix {
 //@fn src/mmap/xen.rs :: impl Drop for MmapUnix :: drop :: tags=C12,C07 :: id=xen::MmapUnix::drop
-//@sub libc::munmap\(self\.addr as \*mut libc::c_void, => libc_munmap(self.addr,
+//@sub libc::munmap\(self\.addr as \*mut libc::c_void, => libc_munmap(&mut self.addr,
 //@spec
     requires old(self).owns(), // the invariant every holder must have kept
+    ensures !final(self).addr.live@, // [C12] the mapping is released on EVERY path (debug and release builds)
 //@end
 //@endfn
 }
